@@ -1,5 +1,6 @@
 import SSModel.Format
 import SSLemmas.Format
+import SSLemmas.FormatCtx
 /-!
 C18 — tree formatting is well-formed; reading it back recovers the Stack's structure.
 Property theorems only.  Model `SSModel/Format.lean` over the marker table generated from `_types.py`.
@@ -280,6 +281,118 @@ theorem C18_frame_blocks (sc sh : Bool) (root : Option String) (frames : Frames)
       cases err with
       | none => simp [errorLines] at hx
       | some ls => simp [errorLines] at hx; subst hx; rfl
+
+/-! ### one level down: the contexts of a frame -/
+
+/-- The block of lines of each visible context of a frame (frame markers already removed). -/
+def ctxBlocks (sh : Bool) (cs : Contexts) : List (List Line) :=
+  (cs.toList.map (fun c => markContext (fmtContext true sh true true c))).filter (fun b => !b.isEmpty)
+
+theorem fmtContexts_flatten (sh : Bool) : ∀ cs : Contexts, fmtContexts true sh cs = (ctxBlocks sh cs).flatten
+  | .nil => rfl
+  | .cons c rest => by
+    have ih := fmtContexts_flatten sh rest
+    simp only [fmtContexts, ctxBlocks, Contexts.toList, List.map_cons, List.filter_cons]
+    cases hb : markContext (fmtContext true sh true true c) with
+    | nil => simp [ih, ctxBlocks]
+    | cons x xs => simp [ih, ctxBlocks]
+
+/-- **C18_context_blocks**: inside the block of a visible frame, once the frame-level marker is taken off every
+line, what follows the frame's header line splits — at start-of-context markers, each block running over the
+context-continuation and child-context markers that follow — into exactly one block per visible context, in order;
+the frame's own source line is not absorbed. -/
+theorem C18_context_blocks (sh : Bool) (head file func : String) (lineno : Nat) (code : String) (hide : Bool) (ctxs : Contexts)
+    (hv : (hide && !sh) = false) :
+    splitBlocks (firstIs .startContext) contCtx (((fmtFrameIn true sh (.mk head file func lineno code hide ctxs)).map pop).drop 1)
+      = ctxBlocks sh ctxs := by
+  simp only [fmtFrameIn, hv, Bool.false_eq_true, if_false, map_pop_markBlock, List.drop_succ_cons, List.drop_zero, if_true,
+    fmtContexts_flatten]
+  apply splitBlocks_flatten
+  · intro x hx
+    simp only [firstIs, contCtx] at hx ⊢
+    cases hm : x.markers with
+    | nil => simp [hm] at hx
+    | cons m ms =>
+      simp only [hm, beq_iff_eq] at hx
+      subst hx
+      rfl
+  · intro b hb
+    simp only [ctxBlocks, List.mem_filter, List.mem_map] at hb
+    obtain ⟨⟨c, _, rfl⟩, hne⟩ := hb
+    cases hl : fmtContext true sh true true c with
+    | nil => simp [hl, markContext] at hne
+    | cons l ls => exact markContext_good l ls
+  · intro x hx
+    split at hx
+    · cases hx
+    · simp at hx; subst hx; rfl
+  · intro x hx
+    split at hx
+    · cases hx
+    · simp at hx; subst hx; rfl
+
+/-- **C18_inner_stack_frames**: inside a visible context that has an inner stack, what follows the context's own line
+splits at start-of-frame markers into exactly the inner stack's visible frames, in order; the inner stack's leaf and
+error lines and every line of the context's children (child contexts, child task stacks, their blank separators) are
+not absorbed. -/
+theorem C18_inner_stack_frames (sc sh hp sl : Bool) (src : String) (desc : Option String) (isAsync : Bool) (objType varname : Option String)
+    (startLine : Option Nat) (hide ex : Bool) (repr robj : String) (root : Option String) (frames : Frames) (leaf : Option String)
+    (err : Option (List String)) (children : Children) (hv : (hide && !sh) = false) :
+    splitBlocks (firstIs .startFrame) (firstIs .continueFrame)
+        ((fmtContext sc sh hp sl (.mk src desc isAsync objType varname startLine hide ex repr robj (some (.mk root frames leaf err)) children)).drop 1)
+      = frameBlocks sc sh frames := by
+  simp only [fmtContext, hv, Bool.false_eq_true, if_false, List.drop_succ_cons, List.drop_zero, fmtStack, fmtFrames_flatten,
+    List.append_assoc]
+  apply splitBlocks_flatten
+  · intro x hx
+    simp only [firstIs] at hx ⊢
+    cases hm : x.markers with
+    | nil => rfl
+    | cons m ms =>
+      simp only [hm, beq_iff_eq] at hx
+      subst hx
+      rfl
+  · intro b hb
+    simp only [frameBlocks, List.mem_filter, List.mem_map] at hb
+    obtain ⟨⟨f, _, rfl⟩, hne⟩ := hb
+    apply frameBlock_good
+    intro h; simp [h] at hne
+  · intro x hx
+    simp only [List.mem_append] at hx
+    rcases hx with hx | hx | hx
+    · cases leaf with
+      | none => cases hx
+      | some r => simp at hx; subst hx; rfl
+    · cases err with
+      | none => cases hx
+      | some ls =>
+        simp only [errorLines, List.mem_cons, List.mem_map] at hx
+        rcases hx with rfl | ⟨y, _, rfl⟩ <;> rfl
+    · have := fmtChildren_childLines sc sh children false x hx
+      simp only [childLine, firstIs] at this ⊢
+      cases hm : x.markers with
+      | nil => rfl
+      | cons m ms => cases m <;> simp [hm] at this ⊢
+  · intro x hx
+    have hnc : ∀ y, childLine y = true → firstIs .continueFrame y = false := by
+      intro y hy
+      simp only [childLine, firstIs] at hy ⊢
+      cases hm : y.markers with
+      | nil => rfl
+      | cons m ms => cases m <;> simp [hm] at hy ⊢
+    cases leaf with
+    | some r => simp at hx; subst hx; rfl
+    | none =>
+      cases err with
+      | some ls => simp [errorLines] at hx; subst hx; rfl
+      | none =>
+        simp only [errorLines, List.nil_append] at hx
+        cases hc : fmtChildren sc sh false children with
+        | nil => simp [hc] at hx
+        | cons y ys =>
+          simp only [hc, List.head?_cons, Option.some.injEq] at hx
+          subst hx
+          exact hnc _ (fmtChildren_childLines sc sh children false _ (by simp [hc]))
 
 /-! non-vacuity -/
 def exStack : Stack :=
